@@ -16,13 +16,23 @@
         projector that the embedding needs;
     (c) Props/C17.v: the projector object denotes 1 - R L^dagger under every operation used.
 
-    Not formalised (hence the suffix): that the implicit block algebra used by the code is the
-    corner of a [BlockAlg] by the idempotent diag(1, P).  KPM accuracy is monitored only. *)
+    (d) [C06_implicit_algebra], [C06_implicit_similarity], [C06_corner_outputs_correspond]
+        (Alg/Corner.v, Alg/CornerEmbed.v): the corner  e T e  of a [BlockAlg] by a self-adjoint,
+        block-diagonal, order-zero idempotent e (= diag(1, P)) is again a [BlockAlg] with the same
+        structure maps, product  x e y  and unit e - so the Hermitian theorems (C01, C02) hold for
+        the implicit computation itself - and  phi x = J x J^dagger  for a partial isometry J
+        (= diag(1, Psi_B): J^dagger J = f, J J^dagger = e) is a least-action morphism between the
+        explicit corner (by f) and the implicit one, hence the three outputs correspond.
+
+    What remains an assumption about the concrete matrices (checked numerically by k_implicit, not
+    formalised): that diag(1, P) and diag(1, Psi_B) satisfy the listed equations in the algebra of
+    series of matrices (they commute with the block triangles and the kept-element selection because
+    the implicit block carries no mask).  KPM accuracy is monitored only. *)
 Require Import Ncring String List Morphisms.
 From PV.Base Require Import Classes AlgLemmas.
 From PV.DSL Require Import Syntax Sem Natural.
 From PV.Gen Require Import Algorithms_gen.
-From PV.Alg Require Import MainLift MainCorrect Equivariance.
+From PV.Alg Require Import MainLift MainCorrect Equivariance Corner CornerEmbed.
 Open Scope string_scope.
 
 Theorem C06_embedding_partial :
@@ -67,3 +77,103 @@ Proof.
   - eapply equivariant_Ht; eassumption.
 Qed.
 Print Assumptions C06_outputs_correspond_partial.
+
+(** The implicit block algebra: corner by e = diag(1, P).  Same carrier and structure maps,
+    product x e y, unit e, equality "equal after compression by e". *)
+Theorem C06_implicit_algebra :
+  forall (T : Type) (r0 r1 : T) (add mul sub : T -> T -> T) (opp : T -> T) (req : T -> T -> Prop)
+         (Ro : @Ring_ops T r0 r1 add mul sub opp req) (Rg : @Ring T r0 r1 add mul sub opp req Ro) (BA : BlockAlg T)
+         (e : T),
+    e * e == e -> adj e == e -> Dg e == e -> Zc e == e ->
+    (forall x, Up (c e x) == c e (Up x)) -> (forall x, Lo (c e x) == c e (Lo x)) ->
+    (forall x, Sel (c e x) == c e (Sel x)) -> (forall x, Rw (c e x) == c e (Rw x)) ->
+    exists (Rg' : @Ring T r0 e add (cmul e) sub opp (ceq e) (corner_ops e))
+           (BA' : @BlockAlg T r0 e add (cmul e) sub opp (ceq e) (corner_ops e)),
+      @adj _ _ _ _ _ _ _ _ _ BA' = adj /\ @Dg _ _ _ _ _ _ _ _ _ BA' = Dg /\ @Up _ _ _ _ _ _ _ _ _ BA' = Up /\
+      @Lo _ _ _ _ _ _ _ _ _ BA' = Lo /\ @Sel _ _ _ _ _ _ _ _ _ BA' = Sel /\ @Zc _ _ _ _ _ _ _ _ _ BA' = Zc /\
+      (forall k x, @ord _ _ _ _ _ _ _ _ _ BA' k x <-> ord k (c e x)).
+Proof.
+  intros T r0 r1 add mul sub opp req Ro Rg BA e h1 h2 h3 h4 h5 h6 h7 h8.
+  exists (corner_ring e h1), (corner_BlockAlg e h1 h2 h3 h4 h5 h6 h7 h8).
+  repeat split; auto.
+Qed.
+Print Assumptions C06_implicit_algebra.
+
+(** Consequently C01 holds for the implicit computation itself: any solution of the shipped
+    program in the corner satisfies the similarity statements there (products  x e y, equality
+    after compression). *)
+Theorem C06_implicit_similarity :
+  forall (T : Type) (r0 r1 : T) (add mul sub : T -> T -> T) (opp : T -> T) (req : T -> T -> Prop)
+         (Ro : @Ring_ops T r0 r1 add mul sub opp req) (Rg : @Ring T r0 r1 add mul sub opp req Ro) (BA : BlockAlg T)
+         (e : T) (h1 : e * e == e) (h2 : adj e == e) (h3 : Dg e == e) (h4 : Zc e == e)
+         (h5 : forall x, Up (c e x) == c e (Up x)) (h6 : forall x, Lo (c e x) == c e (Lo x))
+         (h7 : forall x, Sel (c e x) == c e (Sel x)) (h8 : forall x, Rw (c e x) == c e (Rw x))
+         (rflag : string -> T -> T) (fenv : string -> list T -> T) (sol : string -> T),
+    @solution T r0 e add (cmul e) sub opp (ceq e) (corner_ops e) (corner_BlockAlg e h1 h2 h3 h4 h5 h6 h7 h8)
+              (gflag_of false) rflag fenv sol main_alg ->
+    @wiring T r0 e add (cmul e) sub opp (ceq e) (corner_ops e) (corner_BlockAlg e h1 h2 h3 h4 h5 h6 h7 h8) rflag fenv (sol "H") ->
+    ceq e (Sel (cmul e (cmul e (sol "U†") (sol "H")) (sol "U"))) (sol "H_tilde") /\
+    ceq e (Rp (cmul e (cmul e (sol "U†") (sol "H")) (sol "U"))) 0 /\
+    ceq e (cmul e (sol "U†") (sol "U")) e /\
+    ceq e (adj (sol "U")) (sol "U†").
+Proof.
+  intros T r0 r1 add mul sub opp req Ro Rg BA e h1 h2 h3 h4 h5 h6 h7 h8 rflag fenv sol Hs Hw.
+  pose (Rg' := corner_ring e h1). pose (BA' := corner_BlockAlg e h1 h2 h3 h4 h5 h6 h7 h8).
+  repeat split.
+  - exact (@kept_general T r0 e add (cmul e) sub opp (ceq e) (corner_ops e) Rg' BA' rflag fenv sol Hs Hw).
+  - exact (@eliminated_general T r0 e add (cmul e) sub opp (ceq e) (corner_ops e) Rg' BA' rflag fenv sol Hs Hw).
+  - exact (@unitary_l_general T r0 e add (cmul e) sub opp (ceq e) (corner_ops e) Rg' BA' rflag fenv sol Hs Hw).
+  - exact (@adjoint_general T r0 e add (cmul e) sub opp (ceq e) (corner_ops e) Rg' BA' rflag fenv sol Hs Hw).
+Qed.
+Print Assumptions C06_implicit_similarity.
+
+(** Explicit (corner by f) versus implicit (corner by e) computation: the outputs correspond under
+    phi x = J x J^dagger. *)
+Theorem C06_corner_outputs_correspond :
+  forall (T : Type) (r0 r1 : T) (add mul sub : T -> T -> T) (opp : T -> T) (req : T -> T -> Prop)
+         (Ro : @Ring_ops T r0 r1 add mul sub opp req) (Rg : @Ring T r0 r1 add mul sub opp req Ro) (BA : BlockAlg T)
+         (f e : T)
+         (f1 : f * f == f) (f2 : adj f == f) (f3 : Dg f == f) (f4 : Zc f == f)
+         (f5 : forall x, Up (c f x) == c f (Up x)) (f6 : forall x, Lo (c f x) == c f (Lo x))
+         (f7 : forall x, Sel (c f x) == c f (Sel x)) (f8 : forall x, Rw (c f x) == c f (Rw x))
+         (e1 : e * e == e) (e2 : adj e == e) (e3 : Dg e == e) (e4 : Zc e == e)
+         (e5 : forall x, Up (c e x) == c e (Up x)) (e6 : forall x, Lo (c e x) == c e (Lo x))
+         (e7 : forall x, Sel (c e x) == c e (Sel x)) (e8 : forall x, Rw (c e x) == c e (Rw x))
+         (J : T),
+    adj J * J == f -> J * adj J == e -> e * J == J -> J * f == J ->
+    (forall x, Sel (phi J x) == phi J (Sel x)) ->
+    forall (rflag rflag' : string -> T -> T) (fenv fenv' : string -> list T -> T) (sol sol' : string -> T),
+    @solution T r0 f add (cmul f) sub opp (ceq f) (corner_ops f) (corner_BlockAlg f f1 f2 f3 f4 f5 f6 f7 f8)
+              (gflag_of false) rflag fenv sol main_alg ->
+    @solution T r0 e add (cmul e) sub opp (ceq e) (corner_ops e) (corner_BlockAlg e e1 e2 e3 e4 e5 e6 e7 e8)
+              (gflag_of false) rflag' fenv' sol' main_alg ->
+    @wiring T r0 f add (cmul f) sub opp (ceq f) (corner_ops f) (corner_BlockAlg f f1 f2 f3 f4 f5 f6 f7 f8) rflag fenv (sol "H") ->
+    @wiring T r0 e add (cmul e) sub opp (ceq e) (corner_ops e) (corner_BlockAlg e e1 e2 e3 e4 e5 e6 e7 e8) rflag' fenv' (sol' "H") ->
+    ceq e (sol' "H") (phi J (sol "H")) ->
+    (forall x,
+      ceq e (sylv fenv' ((Zc (sol' "H")) * e * (x - Sel x) - (x - Sel x) * e * (Zc (sol' "H")))
+             - Sel (sylv fenv' ((Zc (sol' "H")) * e * (x - Sel x) - (x - Sel x) * e * (Zc (sol' "H")))))
+            (x - Sel x)) ->
+    ceq e (sol' "U") (phi J (sol "U")) /\ ceq e (sol' "U†") (phi J (sol "U†")) /\
+    ceq e (sol' "H_tilde") (phi J (sol "H_tilde")).
+Proof. intros. eapply corner_outputs_correspond; eassumption. Qed.
+Print Assumptions C06_corner_outputs_correspond.
+
+(** Non-vacuity of the corner hypotheses: in every [BlockAlg] they hold for e = 1 (the corner is
+    then the algebra itself); the intended instance is e = diag(1, P) in an algebra of series of
+    matrices, where the equations are matrix identities checked numerically by k_implicit. *)
+Example C06_corner_hypotheses_satisfiable :
+  forall (T : Type) (r0 r1 : T) (add mul sub : T -> T -> T) (opp : T -> T) (req : T -> T -> Prop)
+         (Ro : @Ring_ops T r0 r1 add mul sub opp req) (Rg : @Ring T r0 r1 add mul sub opp req Ro) (BA : BlockAlg T),
+    (1:T) * 1 == 1 /\ adj (1:T) == 1 /\ Dg (1:T) == 1 /\ Zc (1:T) == 1 /\
+    (forall x, Up (c 1 x) == c 1 (Up x)) /\ (forall x, Sel (c 1 x) == c 1 (Sel x)).
+Proof.
+  intros. assert (C : forall x : T, c 1 x == x) by (intros x; unfold c; rewrite ring_mul_1_l, ring_mul_1_r; reflexivity).
+  repeat split.
+  - apply ring_mul_1_l.
+  - apply adj_one.
+  - apply Dg_one.
+  - apply Zc_one.
+  - intros x. rewrite (C (Up x)). apply am_P. apply C.
+  - intros x. rewrite (C (Sel x)). apply am_P. apply C.
+Qed.
